@@ -216,6 +216,10 @@ pub struct Shadow {
     pub has_holes: bool,
     /// event seq of the first record write acknowledged (C12a) / first sync
     pub first_sync_seq: Option<u64>,
+    pub created_session: usize,
+    /// the storage holds this file through an O_APPEND descriptor (IoDriver::open): the kernel
+    /// ignores the offset of positional writes and appends at the end of file
+    pub append_mode: bool,
 }
 
 #[derive(Clone, Debug)]
@@ -579,6 +583,10 @@ impl Inner {
         }
     }
 
+    pub fn is_foreign(&self, path: &Path) -> bool {
+        !path.starts_with(&self.work_dir)
+    }
+
     pub fn rel(&self, path: &Path) -> String {
         path.strip_prefix(&self.work_dir).map(|p| p.to_string_lossy().to_string()).unwrap_or_else(|_| path.to_string_lossy().to_string())
     }
@@ -676,7 +684,9 @@ impl Inner {
         }
         if let Some(h) = parse_record_header(data, key_len) {
             // C12a: the blob header must have been synced before any record goes into the blob
-            let header_synced = self.shadows.get(name).map(|s| s.synced_len >= BLOB_HEADER_LEN as u64).unwrap_or(false);
+            // (blobs created in this session: a blob reopened after a crash is not a new blob)
+            let session = self.session;
+            let header_synced = self.shadows.get(name).map(|s| s.synced_len >= BLOB_HEADER_LEN as u64 || s.created_session != session).unwrap_or(false);
             if !header_synced {
                 let v = Violation::new("C12", "record-before-header-sync", "a record was written into a blob whose header was never synced", format!("{} offset {}", name, offset));
                 self.violations.push(v);
@@ -726,6 +736,9 @@ impl Inner {
 
 impl SimHooks for World {
     fn on_open(&self, path: &Path, create: bool) -> Result<(), i32> {
+        if self.inner.borrow().is_foreign(path) {
+            return Ok(());
+        }
         let mut w = self.inner.borrow_mut();
         let name = w.rel(path);
         let kind = classify(&name);
@@ -766,6 +779,9 @@ impl SimHooks for World {
     }
 
     fn opened(&self, path: &Path, create: bool, len: u64) {
+        if self.inner.borrow().is_foreign(path) {
+            return ;
+        }
         let mut w = self.inner.borrow_mut();
         let name = w.rel(path);
         let kind = classify(&name);
@@ -781,19 +797,23 @@ impl SimHooks for World {
                 w.ids_seen.insert(id);
                 w.phys.entry(id).or_default();
             }
+            let cur_session = w.session;
             let sh = w.shadows.entry(name.clone()).or_insert_with(Shadow::default);
             if sh.quarantined || sh.removed || sh.content.is_empty() {
                 // fresh file (or re-created index)
                 let keepq = false;
-                *sh = Shadow { created_ms: now, quarantined: keepq, ..Default::default() };
+                *sh = Shadow { created_ms: now, quarantined: keepq, created_session: cur_session, ..Default::default() };
             }
+            sh.append_mode = false;
             if len as usize != sh.content.len() {
                 // created over an existing non-empty file we did not know
                 w.probes.bump("create_len_mismatch");
             }
-        } else if !w.shadows.contains_key(&name) {
+        } else if let Some(sh) = w.shadows.get_mut(&name) {
+            sh.append_mode = true;
+        } else {
             let content = std::fs::read(path).unwrap_or_default();
-            let sh = Shadow { synced_len: content.len() as u64, durable: content.clone(), content, created_ms: now, ..Default::default() };
+            let sh = Shadow { synced_len: content.len() as u64, durable: content.clone(), content, created_ms: now, append_mode: true, ..Default::default() };
             if let FileKind::Blob(id) = kind {
                 w.ids_seen.insert(id);
             }
@@ -802,6 +822,9 @@ impl SimHooks for World {
     }
 
     fn on_write(&self, path: &Path, offset: u64, data: &[u8]) -> WriteDecision {
+        if self.inner.borrow().is_foreign(path) {
+            return WriteDecision::Proceed;
+        }
         let mut w = self.inner.borrow_mut();
         let name = w.rel(path);
         let kind = classify(&name);
@@ -820,6 +843,7 @@ impl SimHooks for World {
             }
             Some(FaultAction::Short { keep, errno }) => {
                 w.note_fault("short_write", &name);
+                let keep = if keep == u32::MAX - 1 { data.len().saturating_sub(1) as u32 } else if keep == u32::MAX - 2 { (data.len() / 2) as u32 } else { keep };
                 let k = (keep as usize).min(data.len().saturating_sub(1));
                 decision = if k == 0 { WriteDecision::Fail(errno) } else { WriteDecision::Short(k, errno) };
                 kept = k;
@@ -830,6 +854,7 @@ impl SimHooks for World {
                 w.killed_at = Some(w.seq);
                 self.kill_flag.set(true);
                 self.kill_notify.notify_one();
+                let keep = if keep == u32::MAX - 1 { data.len().saturating_sub(1) as u32 } else { keep };
                 if keep == u32::MAX || keep as usize >= data.len() {
                     decision = WriteDecision::Proceed;
                 } else if keep == 0 {
@@ -848,6 +873,15 @@ impl SimHooks for World {
             WriteDecision::Short(k, _) => -(k as i64) - 1,
         };
         let seq = w.push_event("write", &name, offset, data.len() as u64, res);
+        // O_APPEND descriptor: the kernel appends at the end of file whatever the requested offset is
+        let requested_offset = offset;
+        let offset = match w.shadows.get(&name) {
+            Some(sh) if sh.append_mode => sh.content.len() as u64,
+            _ => offset,
+        };
+        if offset != requested_offset {
+            w.probes.bump("append_mode_write_moved_by_kernel");
+        }
         if w.query_violation() {
             let v = Violation::new("C07", "C07.query-writes", "write during query phase", format!("write to {} during a query-only phase", name));
             w.violations.push(v);
@@ -907,6 +941,9 @@ impl SimHooks for World {
     }
 
     fn on_read(&self, path: &Path, offset: u64, len: usize) -> Result<(), i32> {
+        if self.inner.borrow().is_foreign(path) {
+            return Ok(());
+        }
         let mut w = self.inner.borrow_mut();
         w.reads += 1;
         let name = w.rel(path);
@@ -944,6 +981,9 @@ impl SimHooks for World {
     }
 
     fn on_sync(&self, path: &Path) -> Result<(), i32> {
+        if self.inner.borrow().is_foreign(path) {
+            return Ok(());
+        }
         let mut w = self.inner.borrow_mut();
         let name = w.rel(path);
         let kind = classify(&name);
@@ -979,6 +1019,9 @@ impl SimHooks for World {
     }
 
     fn synced(&self, path: &Path) {
+        if self.inner.borrow().is_foreign(path) {
+            return ;
+        }
         let mut w = self.inner.borrow_mut();
         let name = w.rel(path);
         let track = w.track_durable;
@@ -998,6 +1041,9 @@ impl SimHooks for World {
     }
 
     fn on_truncate(&self, path: &Path) {
+        if self.inner.borrow().is_foreign(path) {
+            return ;
+        }
         let mut w = self.inner.borrow_mut();
         let name = w.rel(path);
         let kind = classify(&name);
@@ -1092,6 +1138,9 @@ impl SimHooks for World {
 
     fn file_created_at(&self, path: &Path) -> Option<SystemTime> {
         let w = self.inner.borrow();
+        if w.is_foreign(path) {
+            return None;
+        }
         let name = w.rel(path);
         w.shadows.get(&name).map(|s| UNIX_EPOCH + Duration::from_secs(1_700_000_000) + Duration::from_millis(s.created_ms))
     }
